@@ -9,14 +9,17 @@ Fixpoint cops_strip (ops : list cop) : list op :=
   | CIns k v :: r => OIns k v :: cops_strip r
   | CRem k :: r => ORem k :: cops_strip r
   | CCommit :: r => cops_strip r
+  | CCommitKnown _ :: r => cops_strip r
   end.
 
 Lemma c02_go_tree tab ops : forall t,
   snd (c02_go tab t ops) = fold_left apply_op (cops_strip ops) t.
 Proof.
-  induction ops as [|[k v|k|] r IH]; intros t; cbn [c02_go cops_strip fold_left]; auto;
+  induction ops as [|[k v|k| |e] r IH]; intros t; cbn [c02_go cops_strip fold_left]; auto;
     try apply IH.
-  specialize (IH t). destruct (c02_go tab t r) as [hs t']. exact IH.
+  - specialize (IH t). destruct (c02_go tab t r) as [hs t']. exact IH.
+  - unfold commit_known. destruct (bytes_eqb (root_hash (tab_H tab) t) e);
+      specialize (IH t); destruct (c02_go tab t r) as [hs t']; exact IH.
 Qed.
 
 (* the roots reported by a history that ends with a commit: the last one is the
@@ -25,9 +28,12 @@ Lemma c02_go_last_root tab ops : forall t,
   fst (c02_go tab t (ops ++ [CCommit])) =
   fst (c02_go tab t ops) ++ [root_hash (tab_H tab) (snd (c02_go tab t ops))].
 Proof.
-  induction ops as [|[k v|k|] r IH]; intros t; cbn [c02_go app fst snd]; auto.
-  specialize (IH t). destruct (c02_go tab t (r ++ [CCommit])) as [hs t'].
-  destruct (c02_go tab t r) as [hs0 t0]. cbn [fst snd] in *. now rewrite IH.
+  induction ops as [|[k v|k| |e] r IH]; intros t; cbn [c02_go app fst snd]; auto.
+  - specialize (IH t). destruct (c02_go tab t (r ++ [CCommit])) as [hs t'].
+    destruct (c02_go tab t r) as [hs0 t0]. cbn [fst snd] in *. now rewrite IH.
+  - unfold commit_known. destruct (bytes_eqb (root_hash (tab_H tab) t) e);
+      specialize (IH t); destruct (c02_go tab t (r ++ [CCommit])) as [hs t'];
+      destruct (c02_go tab t r) as [hs0 t0]; cbn [fst snd] in *; now rewrite IH.
 Qed.
 
 Theorem batching_irrelevant tab ops1 ops2 :
@@ -73,3 +79,42 @@ Proof.
   unfold run_f. rewrite !run_f_succeeded. intros V1 V2 E.
   destruct (root_depends_only_on_contents _ _ V1 V2 E) as (Et & _ & Eh). auto.
 Qed.
+
+(* ---------- CommitKnown ---------- *)
+(* a CommitKnown never changes the tree; with the right root it returns what
+   Commit returns, with a wrong one it fails *)
+Lemma commit_known_tree H e t : fst (commit_known H e t) = t.
+Proof. unfold commit_known. destruct (bytes_eqb (root_hash H t) e); reflexivity. Qed.
+Lemma commit_known_ok H t : commit_known H (root_hash H t) t = (t, Some (snd (commit H t))).
+Proof. unfold commit_known, commit. now rewrite bytes_eqb_refl. Qed.
+Lemma commit_known_bad H e t : e <> root_hash H t -> snd (commit_known H e t) = None.
+Proof.
+  intros Hne. unfold commit_known. destruct (bytes_eqb (root_hash H t) e) eqn:E; [|reflexivity].
+  apply bytes_eqb_eq in E. congruence.
+Qed.
+
+(* removing every (failed or successful) CommitKnown / Commit marker from a
+   history changes neither the final tree nor, hence, any later root *)
+Theorem commit_known_is_identity_on_tree tab ops :
+  snd (c02_go tab Nil ops) = run (cops_strip ops).
+Proof. apply c02_go_tree. Qed.
+
+Fixpoint drop_known (ops : list cop) : list cop :=
+  match ops with
+  | [] => []
+  | CCommitKnown _ :: r => drop_known r
+  | o :: r => o :: drop_known r
+  end.
+Lemma strip_drop_known ops : cops_strip (drop_known ops) = cops_strip ops.
+Proof. induction ops as [|[k v|k| |e] r IH]; cbn [drop_known cops_strip]; congruence. Qed.
+
+Theorem failed_commit_known_leaves_tree tab ops :
+  snd (c02_go tab Nil (drop_known ops)) = snd (c02_go tab Nil ops) /\
+  last (fst (c02_go tab Nil (drop_known ops ++ [CCommit]))) [] = last (fst (c02_go tab Nil (ops ++ [CCommit]))) [].
+Proof.
+  rewrite !c02_go_last_root, !last_last, !c02_go_tree, strip_drop_known. auto.
+Qed.
+
+Lemma commit_known_bad_full H e t : e <> root_hash H t ->
+  snd (commit_known H e t) = None /\ fst (commit_known H e t) = t.
+Proof. intros Hne. split; [now apply commit_known_bad|apply commit_known_tree]. Qed.
